@@ -324,7 +324,7 @@ fn num_token(rng: &mut Rng) -> String {
         8 => format!("{}.", rng.range(0, 99)),
         9 => format!("00{:.2}", x.abs()),
         10 => format!("{:.17}", x),
-        11 => (*rng.pick(&["1e-45", "1.17549435e-38", "3.4028235e38", "1e-50", "16777217", "0.1", "1e10"])).to_string(),
+        11 => (*rng.pick(&["1e-45", "1.17549435e-38", "3.4028235e38", "1e-50", "16777217", "0.1", "1e10", "1e3", "2E2", "-1e0", "2147483648", "-2147483649", "4294967297", "33554433", "-16777217", "123456789"])).to_string(),
         12 => (*rng.pick(&["-0", "-0.0", "0", "0.0", "-0e0", "+0"])).to_string(),
         _ => format!("{}", x as f32),
     }
@@ -464,8 +464,20 @@ fn gen_obj_inner(rng: &mut Rng) -> GenObj {
 
     let mut verts = Vec::with_capacity(nv);
     let mut vlines = Vec::with_capacity(nv);
+    let dup_rate = if rng.chance(1, 6) { 3 } else { 0 };
+    let mut toks: Vec<[String; 3]> = Vec::with_capacity(nv);
     for _ in 0..nv {
-        let t = [num_token(rng), num_token(rng), num_token(rng)];
+        // now and then a vertex that repeats an earlier one exactly (files with seams do)
+        let t = if !toks.is_empty() && rng.below(10) < dup_rate {
+            rng.pick(&toks).clone()
+        } else if rng.chance(1, 30) {
+            // a long integer coordinate, with or without sign
+            let d = |rng: &mut Rng| format!("{}{}", if rng.chance(1, 2) { "-" } else { "" }, rng.small(9_999_999_999));
+            [d(rng), d(rng), d(rng)]
+        } else {
+            [num_token(rng), num_token(rng), num_token(rng)]
+        };
+        toks.push(t.clone());
         let p = [0, 1, 2].map(|k| t[k].parse::<f32>().expect("generator emits parseable numbers").to_bits());
         verts.push(p);
         vlines.push(format!("{}v{}{}{}{}{}{}", indent(rng), ws(rng, 1), t[0], ws(rng, 1), t[1], ws(rng, 1), t[2]));
